@@ -1421,7 +1421,7 @@ def c08_extra(run_cases, recs, records):
 
 PROPS["C08"] = {
     "theorems": ["C08_vhtml_vtext_no_panic", "C08_vhtml_bad_value_reported", "C08_vmodel_no_panic", "C08_parseDirective_no_panic",
-                 "C08_depth_bound_is_diagnostic"],
+                 "C08_depth_bound_is_diagnostic", "C08_given_up_resolution_unwinds", "C08_new_resolution_starts_afresh"],
     "cases": c08_cases,
     "post": c08_post,
     "extra": c08_extra,
@@ -1492,6 +1492,15 @@ C10_NESTED = ["function nst1() { const t = <Foo>{k()}</Foo>; return t; }", "cons
               "class nst4 { m() { return <Bar>{m()}</Bar>; } }", "if (x) { out.push(<Foo>{k()}</Foo>, <Bar>{m()}</Bar>); }", "function nst6() { return <i/>; }",
               "const nst7 = () => { const inner = () => <Foo>{k()}</Foo>; return <Bar>{inner()}</Bar>; };", "for (const it of list) { out.push(<Foo>{it()}</Foo>); }"]
 C10_TAGS = ["div", "motion.div", "input", "Form.input", "Comp", "ui.Comp", "NS.Item", "Item", "my-el", "a.b.div", "select", "textarea", "ui.textarea", "Unk", "x.Unk"]
+# OTHER JSX trees whose children make slots dynamic (a locally bound identifier as an expression or spread child, at the root or nested, under an
+# element / component / fragment root, in a statement, a function, an arrow, a class) ...
+C10_DYN_OTHER = ["const dq1 = <h1>{val}</h1>;", "(<Foo>{cls}</Foo>);", "function dq2() { return <div><b>{obj}</b></div>; }", "const dq3 = () => <Bar>{...list}</Bar>;",
+                 "(<>{val}</>);", "const dq4 = <Foo><Bar>t {fn1}</Bar></Foo>;", "class dq5 { m() { return <p>{cls}{x}</p>; } }", "(<Unk v-slots={slotsObj}>{obj}</Unk>);",
+                 "const dq6 = <div a={<i>{val}</i>}/>;", "out.push(<Foo>{<b>{list}</b>}</Foo>);", "const dq7 = <KeepAlive>{slotsObj}</KeepAlive>;", "(<my-el>{...obj}</my-el>);"]
+# ... around statements whose slot flags depend on which children are locally bound identifiers (direct / nested / beside text / spread / unbound)
+C10_DYN_STMTS = ["const s = <Comp>{val}</Comp>;", "const s = <Comp>x {cls}</Comp>;", "const s = <Foo>{...list}</Foo>;", "const s = <Comp><Foo>{val}</Foo></Comp>;",
+                 "const s = <div><Comp>{obj}</Comp></div>;", "const s = <Comp>{x}</Comp>;", "const s = <NS.Item>{fn1}{y}</NS.Item>;", "const s = <Unk><i/>{slotsObj}</Unk>;",
+                 "const s = <><Bar>{cls}</Bar></>;", "function s() { return <Foo>t{val}</Foo>; }", "const s = () => <Comp>{list}</Comp>;", "const s = <Comp v-slots={{ n: () => 1 }}>{val}{obj}</Comp>;"]
 
 
 def c10_cases(tier, seed):
